@@ -113,6 +113,22 @@ PROPS = {
                  "public key, truncated, future iat with a foreign key)"],
         assumptions=["the connection kind is what RemoteAddr().Network() reports"],
     ),
+    "C08": dict(
+        lean_props="Receptor.Props.C08",
+        engines=[dict(engine="ctl", pkg="pkg/workceptor", test="TestVerifCtl", n_quick=120, n_thorough=1200)],
+        corr_ops={"ctl": ["sessions"]},
+        facts=["ctl_status_fields_checked", "ctl_findunit_rescan_unlocked", "ctl_reload_serialised", "lock_from", "lock_to", "lock_at", "ctl_reader", "ctl_dispatch", "ctl_msgs", "ctl_table", "lock_edge_sites"],
+        trusted=["encoding/json (text -> value) is an oracle: the decoding of every JSON request line is supplied by the harness and "
+                 "universally quantified in the theorems",
+                 "ControlFunc of ping / traceroute / connect / reload is exercised against a stub Netceptor (no mesh): their answers are "
+                 "modelled by class (JSON reply / ERROR), their network behaviour belongs to other properties",
+                 "the lock-order extractor resolves calls with go/types (interface calls: every analysed method of that name; function "
+                 "values other than literal callbacks are not followed); lock identity is per field, not per instance",
+                 "strings.ToLower on the command token is modelled for ASCII; lines whose command token has other bytes are reported "
+                 "unmodelled (the property predicate on the observation still applies)"],
+        assumptions=["timely = the server finishes a session within 6 s and a fresh probe session within 4 s on this machine",
+                     "memory exhaustion by an endless line without terminator is outside the model (lines up to 70 kB are exercised)"],
+    ),
     "C14": dict(
         lean_props="Receptor.Props.C14",
         engines=[dict(engine="status", pkg="pkg/workceptor", test="TestVerifStatus", n_quick=40, n_thorough=400)],
